@@ -99,6 +99,7 @@ func repProfile(p *sx.Program, sk *Skeleton, profile string) *Skeleton {
 	switch profile {
 	case "numeric":
 		tm.NumReps = allNumReps
+		tm.NegZero = true
 		tm.IntAbsLimit = two53
 		tm.JNIntegersOnly = true
 	case "containers":
@@ -107,6 +108,11 @@ func repProfile(p *sx.Program, sk *Skeleton, profile string) *Skeleton {
 		tm.ContainerReps = true
 	case "wrappers":
 		tm.Wrappers = true
+	case "badjn":
+		tm.NumReps = []int{sx.RepFloat64, sx.RepJSONNumber}
+		tm.JNIntegersOnly = true
+		tm.IntAbsLimit = two53
+		tm.JNAllowBad = true
 	case "bigint":
 		// 64-bit integer kinds over their whole range, restricted to values that are exactly a float64
 		tm.NumReps = []int{sx.RepFloat64, sx.RepInt64, sx.RepUint64, sx.RepUint, sx.RepUintptr}
@@ -118,6 +124,7 @@ func repProfile(p *sx.Program, sk *Skeleton, profile string) *Skeleton {
 		tm.ContainerReps = true
 		tm.Wrappers = true
 		tm.RootTyped = true
+		tm.TypedPtrElems = true
 	case "all":
 		tm.NumReps = []int{sx.RepFloat64, sx.RepInt64, sx.RepUint8, sx.RepJSONNumber}
 		tm.IntAbsLimit = two53
@@ -287,8 +294,8 @@ func equalCases(p *sx.Program, thorough bool) []*EqualCase {
 		k = 2
 	}
 	return split(
-		mk("scalars-all-numeric", 0, 0, 0, func(tm *sx.Tmpl) { tm.NumReps = allNumReps }),
-		mk("numeric-in-containers", d, l, k, func(tm *sx.Tmpl) { tm.NumReps = allNumReps }),
+		mk("scalars-all-numeric", 0, 0, 0, func(tm *sx.Tmpl) { tm.NumReps = allNumReps; tm.NegZero = true }),
+		mk("numeric-in-containers", d, l, k, func(tm *sx.Tmpl) { tm.NumReps = allNumReps; tm.NegZero = true }),
 		mk("containers", d, l, k, func(tm *sx.Tmpl) {
 			tm.NumReps = []int{sx.RepFloat64, sx.RepInt, sx.RepUint64}
 			tm.ContainerReps = true
@@ -364,13 +371,15 @@ func init() {
 			}
 		}
 		canon := mkT(1, 1, 1, func(tm *sx.Tmpl) {})
-		numeric := mkT(1, 1, 1, func(tm *sx.Tmpl) { tm.NumReps = allNumReps })
+		numeric := mkT(1, 1, 1, func(tm *sx.Tmpl) { tm.NumReps = allNumReps; tm.NegZero = true })
 		cont := mkT(1, 1, 1, func(tm *sx.Tmpl) { tm.NumReps = []int{sx.RepFloat64, sx.RepInt}; tm.ContainerReps = true })
 		wrap := mkT(1, 1, 1, func(tm *sx.Tmpl) { tm.Wrappers = true })
 		addEnum("enum2.numeric", 2, numeric, canon)
 		addEnum("const.numeric", 0, numeric, canon)
 		addEnum("const.containers", 0, cont, canon)
 		addEnum("const.wrappers", 0, wrap, canon)
+		canon2 := mkT(1, 1, 2, func(tm *sx.Tmpl) {})
+		addEnum("const.canonical-keys2", 0, canon2, canon2) // objects that differ in their key sets (null members vs absent keys)
 		if thorough {
 			addEnum("enum2.containers", 2, cont, canon)
 			addEnum("enum3.canonical", 3, canon, canon)
@@ -384,8 +393,8 @@ func init() {
 			sk.Tm = &tm
 			skels = append(skels, sk)
 		}
-		uq("canonical-len3", 3, func(tm *sx.Tmpl) {})
-		uq("numeric-len2", 2, func(tm *sx.Tmpl) { tm.NumReps = allNumReps })
+		uq("canonical-len3", 3, func(tm *sx.Tmpl) { tm.NegZero = true })
+		uq("numeric-len2", 2, func(tm *sx.Tmpl) { tm.NumReps = allNumReps; tm.NegZero = true })
 		uq("containers-len2", 2, func(tm *sx.Tmpl) { tm.NumReps = []int{sx.RepFloat64, sx.RepInt}; tm.ContainerReps = true })
 		uq("wrappers-len2", 2, func(tm *sx.Tmpl) { tm.Wrappers = true })
 		if thorough {
@@ -409,7 +418,7 @@ func init() {
 		}
 		r.Bounds = append(r.Bounds,
 			"hash law: hashValue on two symbolic values with one symbolic seed; maphash modelled as a chain of uninterpreted mixing functions (one application per token written), so the query ranges over all hash functions and seeds: O-eq(x,y) => equal hashes",
-			"enum/const: listed values are symbolic JSON values (templates T(1,1,1)), instance symbolic with symbolic representation",
+			"enum/const: listed values are symbolic JSON values (templates T(1,1,1), and T(1,1,2) on both sides for const), instance symbolic with symbolic representation",
 			"uniqueItems: arrays of length <= 3 (quick) / 4 (thorough), elements depth 1 in canonical and mixed representations; verdict <=> no two elements are JSON-equal, for every hash function, seed and collision pattern")
 	}
 }
@@ -496,6 +505,17 @@ func init() {
 		// (c) all hash seeds: uniqueItems with the symbolic hash model
 		skels = append(skels, mkSkel("F-unique", "len3", J{"uniqueItems": true}, refsem.Draft2020, TmplSpec{1, 3, 1}))
 		cc.RunValidateFamily(r, skels, VOptions{SharedWritesAreFindings: true, ValidatePaths: true})
+		// (d) Resolve is deterministic under every map iteration order (real Resolve in the engine, all orders forked)
+		{
+			ds := ResolveOrderDocs()
+			ds, results := RunSkeletons(cc.P, ds, cc.Workers, cc.Timeout, func(w *Worker, sk *Skeleton) *SkelResult {
+				return w.RunResolveOrders(sk, "C14")
+			})
+			for i, s := range results {
+				r.AddSkel(ds[i], s)
+			}
+			r.Bounds = append(r.Bounds, "Resolve determinism: 10 concrete documents with (duplicate) $id, anchors, dynamic anchors and pointer references; the real Resolve runs in the engine and every map range forks over all permutations of its keys (maps of <= 4 keys); each path's rendering of bases/URIs/reference targets/anchors must equal the native one (exhaustive over iteration orders; no symbolic data, so this part is exploration rather than an SMT verdict)")
+		}
 		// scaffold (native, not solver-decided): Resolve leaves the Schema tree untouched; repeated Marshal is byte-identical
 		impure, nondet := 0, 0
 		for _, sk := range skels {
@@ -535,6 +555,7 @@ func init() {
 		for _, sk := range ps {
 			tm := *sk.Tm
 			tm.NumReps = []int{sx.RepFloat64, sx.RepInt64, sx.RepUint64, sx.RepJSONNumber}
+			tm.JNAllowBad = true
 			tm.StrT, tm.KeyT = cc.P.NamedType("VerifStr"), cc.P.NamedType("VerifKey")
 			sk.Tm = &tm
 		}
@@ -552,7 +573,14 @@ func init() {
 		var skels []*Skeleton
 		for i, sk := range append(FamilySingle(ts), FamilyDraft7(ts, false)...) {
 			if cc.Thorough() || i%2 == 0 {
-				skels = append(skels, repProfile(cc.P, sk, "all"))
+				a := repProfile(cc.P, sk, "all")
+				if strings.Contains(sk.Name, "recursive") || strings.Contains(sk.Name, "unique") {
+					a.Tm.Depth = 1 // every representation dimension at once: keep the instance flat here
+				}
+				skels = append(skels, a)
+			}
+			if sk.Family == "F-single" {
+				skels = append(skels, repProfile(cc.P, sk, "badjn")) // json.Number values that math/big cannot parse are instances too
 			}
 		}
 		cc.RunValidateFamily(r, skels, VOptions{})
@@ -568,7 +596,7 @@ func init() {
 		rf := FamilyRef(cc.Thorough(), cc.Seed)
 		cc.RunValidateFamily(r, rf, VOptions{})
 		r.Bounds = append(r.Bounds, boundsValidate...)
-		r.Bounds = append(r.Bounds, "every feasible path that ends in a Go panic (explicit panic, assert, run-time error, reflect-model panic) or exhausts the step/depth budget is a violation candidate, replayed natively under recover; Schema numeric fields range over the float model plus +Inf/-Inf/NaN and the full int range")
+		r.Bounds = append(r.Bounds, "json.Number instances include the state \"text that math/big cannot parse\" (realised as 1e9999999), for which only panics are judged; every feasible path that ends in a Go panic (explicit panic, assert, run-time error, reflect-model panic) or exhausts the step/depth budget is a violation candidate, replayed natively under recover; Schema numeric fields range over the float model plus +Inf/-Inf/NaN and the full int range")
 		r.Outside = append(r.Outside, "Unmarshal on arbitrary bytes (inside encoding/json); For/ForType on arbitrary types (types are declared programs; see C16); Schema graphs with shared or cyclic pointers (checkStructure is exercised natively by C20's scaffold only)")
 	}
 }
